@@ -70,8 +70,10 @@ def createLocStackChecker (W : World) (pred : Value) : Except PyExc Checker := d
 
 /-! ### `LocStackPattern` -/
 
-/-- `item.startswith("__") and item.endswith("__")` -/
-def isDunder (item : String) : Bool := item.startsWith "__" && item.endsWith "__"
+/-- `item.startswith("__") and item.endswith("__")` (on the list of characters, so that it evaluates in the kernel) -/
+def isDunder (item : String) : Bool :=
+  let cs := item.toList
+  cs.take 2 == ['_', '_'] && cs.reverse.take 2 == ['_', '_']
 
 /-- `LocStackPattern._ensure_loc_stack_checker_from_pred` -/
 def ensureFromPred (W : World) : Value → Except PyExc Checker
